@@ -71,6 +71,10 @@ func (a verifAddr) String() string  { return "verif-client" }
 type verifCFO struct {
 	network string
 	stdin   string
+	// a client that is slow with its stdin: `entered` is closed when the command starts to read it, the read
+	// returns once `hold` is closed
+	entered chan struct{}
+	hold    chan struct{}
 	mu      sync.Mutex
 	written []byte
 	closed  bool
@@ -80,6 +84,12 @@ func (c *verifCFO) BridgeConn(string, io.ReadWriteCloser, string, *logger.Recept
 	return nil
 }
 func (c *verifCFO) ReadFromConn(_ string, out io.Writer, _ controlsvc.Copier) error {
+	if c.entered != nil {
+		close(c.entered)
+	}
+	if c.hold != nil {
+		<-c.hold
+	}
 	_, err := out.Write([]byte(c.stdin))
 	return err
 }
